@@ -1,0 +1,29 @@
+//! Verification hooks (only compiled with `--cfg rssched_verif`).
+//! Thread-local recorders for the accepted local-search steps and the pipeline stages of one
+//! solve call. They only observe: clones of the schedules are stored, nothing is fed back.
+
+use solution::Schedule;
+use std::cell::RefCell;
+
+thread_local! {
+    static STEPS: RefCell<Vec<(Option<Schedule>, Schedule)>> = const { RefCell::new(Vec::new()) };
+    static STAGES: RefCell<Vec<(&'static str, Schedule)>> = const { RefCell::new(Vec::new()) };
+}
+
+/// Called between two steps of the schedule local search with (previous, accepted) schedule.
+pub fn record_step(previous: Option<&Schedule>, current: &Schedule) {
+    STEPS.with(|s| s.borrow_mut().push((previous.cloned(), current.clone())));
+}
+
+pub fn take_steps() -> Vec<(Option<Schedule>, Schedule)> {
+    STEPS.with(|s| std::mem::take(&mut *s.borrow_mut()))
+}
+
+/// Called by the solve pipeline after each stage.
+pub fn record_stage(name: &'static str, schedule: &Schedule) {
+    STAGES.with(|s| s.borrow_mut().push((name, schedule.clone())));
+}
+
+pub fn take_stages() -> Vec<(&'static str, Schedule)> {
+    STAGES.with(|s| std::mem::take(&mut *s.borrow_mut()))
+}
